@@ -102,20 +102,22 @@ pub fn as_duration(config: &SmartCalcConfig, tokinizer: &Tokinizer, fields: &BTr
             None => return Err("Duration type not valid".to_string())
         };
 
+        /* The source is a duration, written out or held by a variable */
+        if let Some(duration) = get_duration("source", fields) {
+            let seconds = duration.num_seconds().abs() as i64;
+
+            return match constant_type {
+                ConstantType::Day => Ok(TokenType::Duration(Duration::days(seconds / DAY))),
+                ConstantType::Second => Ok(TokenType::Duration(Duration::seconds(seconds))),
+                ConstantType::Minute => Ok(TokenType::Duration(Duration::minutes(seconds / MINUTE as i64))),
+                ConstantType::Hour => Ok(TokenType::Duration(Duration::hours(seconds / HOUR as i64))),
+                ConstantType::Week => Ok(TokenType::Duration(Duration::weeks(seconds / WEEK as i64))),
+                _ => return Err("Duration type not valid".to_string()) 
+            };
+        }
+
         match fields.get("source") {
             Some(token_info) => match token_info.token_type.borrow().deref()  {
-                Some(TokenType::Duration(duration)) => {
-                    let seconds = duration.num_seconds().abs() as i64;
-                    
-                    return match constant_type {
-                        ConstantType::Day => Ok(TokenType::Duration(Duration::days(seconds / DAY))),
-                        ConstantType::Second => Ok(TokenType::Duration(Duration::seconds(seconds))),
-                        ConstantType::Minute => Ok(TokenType::Duration(Duration::minutes(seconds / MINUTE as i64))),
-                        ConstantType::Hour => Ok(TokenType::Duration(Duration::hours(seconds / HOUR as i64))),
-                        ConstantType::Week => Ok(TokenType::Duration(Duration::weeks(seconds / WEEK as i64))),
-                        _ => return Err("Duration type not valid".to_string()) 
-                    };
-                },
                 Some(TokenType::Time(time, _)) => {
                     let seconds = time.num_seconds_from_midnight() as i64;
                     
